@@ -72,9 +72,7 @@ struct Env {
 fn make_env() -> Env {
     let rt = tokio::runtime::Builder::new_current_thread().enable_all().build().unwrap();
     // one rule without conditions: every client may read the listing
-    let conf = rt
-        .block_on(erbium::config::verif_load_config_from_string("---\nacls:\n - apply-access: ['http-ro']\n"))
-        .expect("config");
+    let conf = erbium::config::verif_load_config_from_string("---\nacls:\n - apply-access: ['http-ro']\n").expect("config");
     let c2 = conf.clone();
     let r = catch(|| {
         rt.block_on(async {
